@@ -25,6 +25,37 @@ CLAIMED = {
         LISTING_NOTE,
         "DESIGN.md 3, 6/C01",
     ),
+    "C14": (
+        "exploration",
+        "bounded exhaustive enumeration of operation/instruction classes x operand boundary vectors x byte orders x pointer sizes, all 256 opcodes in both spaces, concatenations, and constant windows, against an independent DWARF v4 codec",
+        "Every Operation/Instruction class x cartesian boundary operand vectors x 4 (byte order, pointer size) configurations is encoded "
+        "by the library and by an independent codec typed in from DWARF v4 (vf/dwarfref.py); decode(encode(x)) == x with exact "
+        "consumption; out-of-range -> ValueError; all 256 first bytes in both opcode spaces; parse_cfi_instructions on all "
+        "concatenations of <= 3 instructions; directive form re-encoded independently; make_const_op on the full 18-bit window "
+        "and every 64-bit length/validity boundary window, value and minimal length checked by a reference stack evaluator.",
+        "Trusted: the reference codec (self-tested against the standard's worked LEB128 examples). The 64-bit range is covered by boundary windows, not value by value (evidence: subspace_exhaustive).",
+        "DESIGN.md 6/C14",
+    ),
+    "C18": (
+        "exploration",
+        "bounded exhaustive enumeration of hand-built modules (symbol kinds x use-place subsets x PIE x ABIs x retarget sets x one modification) through RewritingContext.retarget_symbol_uses + apply(), against a by-value snapshot oracle",
+        "All 512 subsets of the nine places a symbol can be used x kinds of A/B/C x PIE x retarget sets (single, two-to-one, chain) x one "
+        "neighbouring modification, on x86-64 ELF, ARM64 ELF and x64 PE, are run through the real API; expressions, CFI, symbolForwarding, "
+        "operand edges, return edges, bystanders and refusals are compared with an oracle written from the statement and a hand-typed "
+        "attribute rule table.",
+        "Trusted: gtirb, capstone (table self-check). F11 (return edges do not follow a retargeted call) is a known finding matched by its own discrepancy kind.",
+        "DESIGN.md 6/C18",
+    ),
+    "C19": (
+        "exploration",
+        "bounded exhaustive lattice enumeration (place subsets x sharing x version configurations x force flags) through RewritingContext.delete_symbol + apply(), against an independent full-scan oracle",
+        "Every subset of the 11 (ELF) / 10 (PE) places a symbol can be mentioned, private or shared with a kept symbol, x force-request modes, plus "
+        "pairs of deleted symbols over grouped places and 2 304 symbol-version configurations, is run through the real API; afterwards every aux table "
+        "is scanned generically for the deleted symbols, version definitions/requirements are compared with an oracle computed from the statement, "
+        "kept entries must be unchanged and the IR must survive a protobuf round trip.",
+        "Trusted: gtirb protobuf codec. For two deleted symbols the subset quantifier is covered over grouped places.",
+        "DESIGN.md 6/C19",
+    ),
     "C20": (
         "model_checking",
         "explicit-state BFS over operation histories of the real containers against reference models (fixpoint for 4 universes, depth-bounded for ReferenceCache)",
